@@ -394,9 +394,68 @@ class StmtMixin(ContractMixin):
 
     def st_If(self, s, st):
         c = self.cond(st, s.test)
+        ns = st.ghost.get("__nosplit__", ())
+        c2 = z3.simplify(c)
+        if ns and not z3.is_true(c2) and not z3.is_false(c2) and mentions(c2, set(ns)) \
+                and not self.implied(st, c2) and not self.implied(st, z3.simplify(z3.Not(c2))):
+            return self.if_merge(s, st, c2)
         if self.decide(st, c):
             return self.exec_block(s.body, [st])
         return self.exec_block(s.orelse, [st])
+
+    def if_merge(self, s, st, c):
+        """Both branches are executed and merged with ite (needed below comprehension binders,
+        where a case split is impossible). Branches must be side-effect free on the heap."""
+        a, b = st.clone(), st.clone()
+        a.pc.append(c)
+        b.pc.append(z3.simplify(z3.Not(c)))
+        multi = st.ghost.get("__multi__", True)
+        for x in (a, b):
+            x.ghost["__multi__"] = False
+        ra = self.exec_block(s.body, [a])
+        rb = self.exec_block(s.orelse, [b])
+        a, b = ra[0], rb[0]
+        for x in (a, b):
+            for r, h in x.heap.items():
+                if r in st.heap and st.heap[r] is not h:
+                    raise Unsupported("heap update inside a branch that must be merged (condition depends on a bound variable)")
+        if a.status != b.status or a.status not in ("run", "return"):
+            # one branch returns, the other falls through: continue the fall-through with the rest of the block
+            raise Unsupported("branches with different control flow below a bound variable")
+        if a.status == "return":
+            st.status = "return"
+            st.value = self.merge_values(st, c, a.value, b.value)
+        ea, eb = a.frame.env, b.frame.env
+        for k in set(ea) | set(eb):
+            va, vb = ea.get(k), eb.get(k)
+            if va is vb:
+                continue
+            if va is None or vb is None:
+                continue
+            st.frame.env[k] = self.merge_values(st, c, va, vb)
+        for r, h in a.heap.items():
+            if r not in st.heap:
+                st.heap[r] = h
+        for r, h in b.heap.items():
+            if r not in st.heap:
+                st.heap[r] = h
+        st.ghost["__multi__"] = multi
+        return [st]
+
+    def merge_values(self, st, c, va, vb):
+        va, vb = self.force_nosplit(st, va), self.force_nosplit(st, vb)
+        try:
+            if isinstance(va, VRef) and isinstance(vb, VRef) and not (va.root == vb.root and va.path == vb.path):
+                h = self.v_ite(c, self.resolve(st, va), self.resolve(st, vb))
+                st.aliases.append((va.root, va.path))
+                st.aliases.append((vb.root, vb.path))
+                return self.alloc(st, h)
+            return self.v_ite(c, va, vb)
+        except NeedSplit:
+            raise Unsupported("cannot merge branch results below a bound variable")
+
+    def force_nosplit(self, st, v):
+        return v
 
     def st_With(self, s, st):
         for it in s.items:
@@ -814,7 +873,8 @@ class StmtMixin(ContractMixin):
             if self.has_local_set_prefix(st, ref):
                 pass  # falls through: apply to the local view and re-log as set of that prefix below
             else:
-                st.rec[-1].effects.append(Effect(ef.kind, root, ef.path, ef.value, ef.guard, binders, where=ef.where))
+                outer_g = t_and(*st.pc[st.rec[-1].pc_len:])
+                st.rec[-1].effects.append(Effect(ef.kind, root, ef.path, ef.value, t_and(outer_g, ef.guard), binders, where=ef.where))
         st.heap[root] = self.apply_to_h(st, st.heap[root], path, ef, binders, k, s)
         if st.rec and root not in st.rec[-1].fresh:
             ref = VRef(root, tuple(path))
@@ -964,11 +1024,13 @@ class StmtMixin(ContractMixin):
         return mentions(t, ids)
 
     def emit_family(self, st, ef, binders):
-        fams = list(st.ghost.get("__families__", ()))
-        fams.append((ef.name, tuple(binders), ef.guard, ef.value, ef.where))
-        st.ghost["__families__"] = tuple(fams)
+        if not st.rec:
+            fams = list(st.ghost.get("__families__", ()))
+            fams.append((ef.name, tuple(binders), ef.guard, ef.value, ef.where))
+            st.ghost["__families__"] = tuple(fams)
         if st.rec:
-            st.rec[-1].effects.append(Effect("emit", None, (), ef.value, ef.guard, binders, name=ef.name, where=ef.where))
+            outer_g = t_and(*st.pc[st.rec[-1].pc_len:])
+            st.rec[-1].effects.append(Effect("emit", None, (), ef.value, t_and(outer_g, ef.guard), binders, name=ef.name, where=ef.where))
 
     # ------------------------------------------------------------------ rule I (filled in by loops.py)
 
